@@ -93,6 +93,10 @@ func runC18(c *Ctx) {
 	fn := c.fname(h)
 	c18NoPanic(c)
 	c18MetricsDirect(c)
+	// the monitor keeps running: messages that fail validation never end the receive loop (shared R-C09-2/3)
+	if rr := c.P.Method("internal/corerad", "listener", "receiveRetry"); rr != nil {
+		c09ReceiveRetry(c, rr)
+	}
 	c.R.Check(h.Signature.Results().Len() == 0, "R-C18-3", fn+":no-result", fn, c.pos(h.Pos()), fmt.Sprintf("%d results", h.Signature.Results().Len()), "the monitor handler cannot fail", "monitor can fail on a message")
 	ps := c.pathsO("R-C18-1", h, an.PathOpts{EmitCut: true})
 	isRA := func(e *an.Expr) bool {
